@@ -2096,7 +2096,11 @@ func (fc *FnCtx) contractMods(call *ast.CallExpr, f *types.Func, ct *Contract, m
 		argExpr, argT := argOf(rootName)
 		if argT == nil {
 			// a caller-scoped extern may name a parameter / the receiver of the function under verification
-			if rsig, ok := fc.root().fn.Type().(*types.Signature); ok && fc.root().fn != nil {
+			var rsig *types.Signature
+			if rf := fc.root().fn; rf != nil {
+				rsig, _ = rf.Type().(*types.Signature)
+			}
+			if rsig != nil {
 				var cands []*types.Var
 				if rsig.Recv() != nil {
 					cands = append(cands, rsig.Recv())
